@@ -26,6 +26,10 @@
 //!            over-long garbage, unwritable / missing directory -> fresh or usable keys,
 //!            never a panic in any thread (panics are counted by a process-wide hook;
 //!            the shipped daemon is built with panic=abort).
+//!   dcrash   REAL crash injection: a child process runs the real provider on a full key file and
+//!            is killed by the kernel (RLIMIT_FSIZE = N, SIGXFSZ) inside its rotation store at
+//!            byte N, for many N (thorough: every N); the parent loads what is left: it must be
+//!            rejected or be exactly the old set rotated once; a subset is restarted on
 //!   After every start on an existing path the file must be exactly the healthy image of
 //!   the key set in use (no stale tail: the daemon's store is truncate-then-write).
 use std::io::{BufReader, Cursor};
@@ -338,6 +342,13 @@ struct Env<'a> {
     live: std::cell::Cell<Option<Instant>>,
 }
 
+/// Inputs/outputs of the crash-injection batch (run on plain threads outside the runtime).
+struct CrashData {
+    /// per stale-key-count s: healthy image with s+1 keys and the sessions of generations 0..=s+1
+    bases: Vec<(Vec<u8>, Vec<(usize, Session)>)>,
+    outcomes: Vec<CrashOutcome>,
+}
+
 impl Env<'_> {
     fn path(&self, name: &str) -> PathBuf {
         let n = self.next.get();
@@ -639,9 +650,33 @@ fn corrupt_classes(f: &[u8]) -> Vec<(String, Vec<u8>, Expect)> {
     v
 }
 
-async fn run_all(env: &Env<'_>) {
+async fn run_all(env: &Env<'_>, crash: &CrashData) {
     let ctx = env.ctx;
     let thorough = !ctx.quick();
+
+    // ---- real crash injection into the daemon's store: judge what the kernel-killed children left ----
+    for o in &crash.outcomes {
+        let (base, sessions) = &crash.bases[o.s];
+        let obs = judge_crash(ctx, base, o);
+        let len = base.len() as u64;
+        if o.n == 0 || o.n == 20 || o.n == 84 || o.n + 1 == len || o.n == len {
+            ctx.sample(format!("daemon killed in store: stale-key-count {} limit {}/{len}: {obs}", o.s, o.n));
+        }
+        // a real restart on what was left, for a subset of the crash points
+        if o.machinery.is_none() && o.limited && !o.late && [0, 20, 84, len - 1, len].contains(&o.n) {
+            let loads = matches!(common::catch(|| KeySetProvider::load(&mut Cursor::new(&o.after), o.s)), Ok(Ok(_)));
+            // generations: newest old key = s+1; after the rotation newest = s+2, valid >= 2
+            let (old, expect): (Vec<(Option<bool>, &Session)>, Expect) = if !loads {
+                (sessions.iter().map(|(_, s)| (Some(true), s)).collect(), Expect::Fresh)
+            } else if is_rotated_once(base, &o.after, o.s) {
+                // with stale-key-count 0 no old generation survives the rotation
+                (sessions.iter().map(|(g, s)| (Some(*g >= 2), s)).collect(), if o.s >= 1 { Expect::Restored } else { Expect::Fresh })
+            } else {
+                (sessions.iter().map(|(_, s)| (None, s)).collect(), Expect::Either)
+            };
+            file_case(env, "dcrash-restart", &format!("s={};n={}", o.s, o.n), Some(&o.after), o.s, &old, expect).await;
+        }
+    }
 
     // ---- rotate (first, its provider thread needs ~1 s to wind down) ----
     let rotate_done = {
@@ -874,8 +909,343 @@ async fn replay_one(env: &Env<'_>, trace: &str) -> String {
             let old: Vec<(Option<bool>, &Session)> = sessions.iter().map(|(r, s)| (Some(3 - r <= 2), s)).collect();
             file_case(env, "restart", "replay", Some(&bytes), 2, &old, Expect::Restored).await
         }
+        "dcrash" => {
+            let parts: Vec<&str> = name.split(';').collect();
+            let get = |k: &str| parts.iter().find_map(|p| p.strip_prefix(k)).and_then(|v| v.parse::<u64>().ok());
+            let (sc, n) = (get("s=").unwrap_or(0) as usize, get("n=").unwrap_or(0));
+            let (base, _) = healthy(env, sc, sc + 1).await;
+            let dir = env.dir.join(format!("replay-crash-{}", env.next.get()));
+            env.next.set(env.next.get() + 1);
+            let o = run_crash_child(&dir, sc, n, &base);
+            judge_crash(env.ctx, &base, &o)
+        }
         _ => "trace kind not replayable (rotate/unwritable scenarios are timing/fs bound): run the check".into(),
     }
+}
+
+// ---------------------------------------------------------------------------------
+// real crash injection: the daemon's own store path is killed by the kernel at byte N
+// ---------------------------------------------------------------------------------
+//
+// The crash states are OBSERVED, not derived from reading the daemon: a child process (this
+// very test binary, test `child`) runs the real `nts_key_provider::spawn` on a prepared full
+// key file (stale-key-count s, s+1 keys) with a 3 s rotation interval. After the start-up
+// store it limits its own RLIMIT_FSIZE to N bytes (`/usr/bin/prlimit --pid self`; ntpd forbids
+// unsafe code, so no setrlimit call). At the next store (after the rotation) the kernel cuts
+// the write at offset N and kills the process with SIGXFSZ the moment it tries to pass N:
+// an exact, kernel-enforced crash point inside the daemon's real store. The parent then looks
+// at the file the way the next start does.
+
+const SIGXFSZ: i32 = 25;
+const CHILD_INTERVAL_S: usize = 3;
+
+#[derive(Clone, Debug)]
+struct CrashOutcome {
+    s: usize,
+    n: u64,
+    /// Some(signal) / None
+    signal: Option<i32>,
+    code: Option<i32>,
+    late: bool,
+    limited: bool,
+    boot_image_ok: bool,
+    after: Vec<u8>,
+    machinery: Option<String>,
+}
+
+/// Prepared file for stale-key-count `s`: the healthy image with its time field moved into
+/// the future, so that the provider's first sleep is one full rotation interval.
+fn prepared(base: &[u8]) -> Vec<u8> {
+    let future = std::time::SystemTime::now().duration_since(std::time::UNIX_EPOCH).map(|d| d.as_secs()).unwrap_or(0) + 3600;
+    with_hdr(base, Some(future), None, None, None)
+}
+
+fn run_crash_child(dir: &Path, s: usize, n: u64, base: &[u8]) -> CrashOutcome {
+    let mut out = CrashOutcome { s, n, signal: None, code: None, late: false, limited: false, boot_image_ok: false, after: vec![], machinery: None };
+    let _ = std::fs::remove_dir_all(dir);
+    if let Err(e) = std::fs::create_dir_all(dir).and_then(|_| std::fs::write(dir.join("keys"), prepared(base))) {
+        out.machinery = Some(format!("cannot prepare {dir:?}: {e}"));
+        return out;
+    }
+    let exe = match std::env::current_exe() {
+        Ok(e) => e,
+        Err(e) => {
+            out.machinery = Some(format!("current_exe: {e}"));
+            return out;
+        }
+    };
+    let child = std::process::Command::new(exe)
+        .args(["daemon::verif::c27::child", "--exact", "--nocapture", "--test-threads", "1"])
+        .env("VERIF_C27_CHILD", dir)
+        .env("VERIF_C27_STALE", s.to_string())
+        .env("VERIF_C27_FSIZE", n.to_string())
+        .env_remove("VERIF_REPLAY_TRACE")
+        .stdin(std::process::Stdio::null())
+        .stdout(std::process::Stdio::null())
+        .stderr(std::process::Stdio::null())
+        .spawn();
+    let mut child = match child {
+        Ok(c) => c,
+        Err(e) => {
+            out.machinery = Some(format!("cannot start child: {e}"));
+            return out;
+        }
+    };
+    let t0 = Instant::now();
+    let status = loop {
+        match child.try_wait() {
+            Ok(Some(st)) => break Some(st),
+            Ok(None) if t0.elapsed() > Duration::from_secs(90) => {
+                let _ = child.kill();
+                let _ = child.wait();
+                break None;
+            }
+            Ok(None) => std::thread::sleep(Duration::from_millis(15)),
+            Err(_) => break None,
+        }
+    };
+    match status {
+        None => out.machinery = Some("child did not finish within 90 s".into()),
+        Some(st) => {
+            use std::os::unix::process::ExitStatusExt;
+            out.signal = st.signal();
+            out.code = st.code();
+        }
+    }
+    out.late = dir.join("late").exists();
+    out.limited = dir.join("limited").exists();
+    out.after = std::fs::read(dir.join("keys")).unwrap_or_default();
+    // what the start-up store left must be the prepared set (same ids and keys)
+    out.boot_image_ok = std::fs::read(dir.join("old")).map(|o| o.len() == base.len() && o[8..] == base[8..]).unwrap_or(false);
+    let _ = std::fs::remove_dir_all(dir);
+    out
+}
+
+fn parse_image(f: &[u8]) -> Option<(u32, u32, Vec<&[u8]>)> {
+    if f.len() < 20 {
+        return None;
+    }
+    let off = u32::from_be_bytes(f[8..12].try_into().unwrap());
+    let primary = u32::from_be_bytes(f[12..16].try_into().unwrap());
+    let n = u32::from_be_bytes(f[16..20].try_into().unwrap()) as usize;
+    if f.len() != 20 + 64 * n {
+        return None;
+    }
+    Some((off, primary, f[20..].chunks(64).collect()))
+}
+
+/// Reference (statement): the set being stored at the crash is the old set rotated once with
+/// history s: the s newest old keys keep their ids, one new key (not among the old ones)
+/// becomes primary with the next id.
+fn is_rotated_once(base: &[u8], after: &[u8], s: usize) -> bool {
+    let (Some((bo, _bp, bk)), Some((ao, ap, ak))) = (parse_image(base), parse_image(after)) else { return false };
+    let dropped = bk.len().saturating_sub(s);
+    let survivors = &bk[dropped..];
+    ak.len() == survivors.len() + 1
+        && ak[..survivors.len()] == *survivors
+        && !bk.contains(ak.last().unwrap())
+        && ak.last().unwrap().iter().any(|b| *b != 0)
+        && ao == bo.wrapping_add(dropped as u32)
+        && ap as usize == ak.len() - 1
+}
+
+/// Judge one crash outcome. Returns the observation string.
+fn judge_crash(ctx: &Ctx, base: &[u8], o: &CrashOutcome) -> String {
+    let trace = format!("dcrash;s={};n={}", o.s, o.n);
+    let len = base.len() as u64;
+    ctx.inc("evaluations");
+    ctx.inc("daemon_crash_cases");
+    let expect_crash = o.n < len;
+    let machinery = o.machinery.clone().or_else(|| {
+        if !o.limited {
+            Some(format!("child never applied the limit (exit {:?}, signal {:?})", o.code, o.signal))
+        } else if o.late {
+            Some("limit applied too late (more than 2.5 s after the start-up store)".into())
+        } else if !o.boot_image_ok {
+            Some("start-up store did not leave the prepared key set".into())
+        } else if expect_crash && o.signal != Some(SIGXFSZ) {
+            Some(format!("child was expected to die of SIGXFSZ at offset {}, got exit {:?} signal {:?}", o.n, o.code, o.signal))
+        } else if !expect_crash && o.code != Some(0) {
+            Some(format!("control child (limit {} >= {len}) was expected to store and exit 0, got exit {:?} signal {:?}", o.n, o.code, o.signal))
+        } else {
+            None
+        }
+    });
+    if let Some(m) = machinery {
+        ctx.inc("daemon_crash_machinery_errors");
+        ctx.cap_hit(&format!("{trace}: not judged: {m}"));
+        return format!("machinery: {m}");
+    }
+    let loaded = common::catch(|| KeySetProvider::load(&mut Cursor::new(&o.after), o.s));
+    let is_prefix = o.after.len() as u64 == o.n.min(len);
+    if expect_crash && is_prefix {
+        ctx.inc("daemon_crash_file_is_n_byte_prefix");
+    }
+    let obs;
+    match loaded {
+        Err(p) => {
+            ctx.violation("C27:load-panic", format!("load of the file left by a crash at offset {} panicked: {p}", o.n), trace.clone());
+            obs = format!("signal={:?} len={} load=panic", o.signal, o.after.len());
+        }
+        Ok(Err(_)) => {
+            if expect_crash {
+                ctx.inc("daemon_crash_left_unloadable");
+            } else {
+                ctx.violation("C27:daemon-rotation-store-differs", format!("uninterrupted rotation store (limit {} >= {len}) left a file that does not load", o.n), trace.clone());
+            }
+            obs = format!("signal={:?} len={} load=Err", o.signal, o.after.len());
+        }
+        Ok(Ok((prov, _))) => {
+            let rotated = is_rotated_once(base, &o.after, o.s);
+            // identical to the previous set (only the time field may differ)?
+            let previous = o.after.len() == base.len() && o.after[8..] == base[8..];
+            if !expect_crash {
+                if rotated {
+                    ctx.inc("daemon_store_completed_rotated_set");
+                } else {
+                    ctx.violation(
+                        "C27:daemon-rotation-store-differs",
+                        format!("uninterrupted rotation store (stale-key-count {}, limit {} >= {len}) left a set that is not the old one rotated once: {:?}", o.s, o.n, prov.get()),
+                        trace.clone(),
+                    );
+                }
+            } else if previous {
+                // The kernel let at most n < len bytes of the new stream through, so a complete
+                // loadable file cannot be the set being stored. Here it is exactly the previous
+                // set: literally outside "the set being stored or fresh keys", but the benign
+                // kind (what write-temp-then-rename would leave) -> own class.
+                ctx.violation(
+                    "C27:daemon-crash-keeps-previous-set",
+                    format!("daemon killed at byte {} of its rotation store (stale-key-count {}): the previous key set is still in the file and loads; the statement allows only the set being stored or fresh keys", o.n, o.s),
+                    trace.clone(),
+                );
+            } else {
+                ctx.violation(
+                    "C27:daemon-crash-leaves-other-set",
+                    format!(
+                        "daemon killed at byte {} of its rotation store (stale-key-count {}, {len}-byte file): the file left behind ({} bytes, at most {} of them new) LOADS, but is neither the set being stored nor rejected nor the previous set{}: {:?}",
+                        o.n, o.s, o.after.len(), o.n,
+                        if rotated { " (it has the shape of the rotated set, but its newest key is a splice of new and stale bytes)" } else { "" },
+                        prov.get()
+                    ),
+                    trace.clone(),
+                );
+            }
+            obs = format!("signal={:?} len={} load=Ok rotated_once={rotated} previous={previous}", o.signal, o.after.len());
+        }
+    }
+    ctx.distinct(common::hash_of(&trace));
+    obs
+}
+
+fn crash_offsets(len: u64, thorough: bool) -> Vec<u64> {
+    let mut v: Vec<u64> = if thorough {
+        (0..=len).collect()
+    } else {
+        let mut v: Vec<u64> = (0..=24).collect();
+        let mut k = 20i64;
+        while k <= len as i64 {
+            for d in [-2i64, -1, 0, 1, 2] {
+                if k + d >= 0 && k + d <= len as i64 {
+                    v.push((k + d) as u64);
+                }
+            }
+            k += 64;
+        }
+        v.extend((0..=len).step_by(8));
+        v.push(len);
+        v
+    };
+    v.push(len + 1000); // control far above
+    v.sort();
+    v.dedup();
+    v
+}
+
+/// Run all crash cases with up to `par` children at a time. `bases[s]` = healthy s+1-key image.
+fn run_crash_batch(dir: &Path, bases: &[Vec<u8>], thorough: bool, par: usize) -> Vec<CrashOutcome> {
+    let mut cases = Vec::new();
+    for (s, base) in bases.iter().enumerate() {
+        for n in crash_offsets(base.len() as u64, thorough) {
+            cases.push((s, n));
+        }
+    }
+    let next = AtomicU64::new(0);
+    let results = Mutex::new(Vec::new());
+    std::thread::scope(|sc| {
+        for _ in 0..par {
+            sc.spawn(|| loop {
+                let i = next.fetch_add(1, Ordering::SeqCst) as usize;
+                if i >= cases.len() {
+                    break;
+                }
+                let (s, n) = cases[i];
+                let cdir = dir.join(format!("crash-s{s}-n{n}"));
+                let mut o = run_crash_child(&cdir, s, n, &bases[s]);
+                // retries for machinery trouble only (limit applied late under load, fork failure);
+                // a case that was judged is never repeated
+                let mut tries = 1;
+                while tries < 5 && (o.machinery.is_some() || o.late || !o.limited) {
+                    o = run_crash_child(&cdir, s, n, &bases[s]);
+                    tries += 1;
+                }
+                results.lock().unwrap().push(o);
+            });
+        }
+    });
+    let mut r = results.into_inner().unwrap();
+    r.sort_by_key(|o| (o.s, o.n));
+    r
+}
+
+/// Child mode of the crash injection (see above). A no-op unless VERIF_C27_CHILD is set.
+#[test]
+fn child() {
+    let Ok(dir) = std::env::var("VERIF_C27_CHILD") else { return };
+    let dir = PathBuf::from(dir);
+    let stale: usize = std::env::var("VERIF_C27_STALE").ok().and_then(|v| v.parse().ok()).unwrap_or(0);
+    let fsize: u64 = std::env::var("VERIF_C27_FSIZE").ok().and_then(|v| v.parse().ok()).unwrap_or(0);
+    let rt = tokio::runtime::Builder::new_current_thread().enable_all().build().expect("runtime");
+    let code = rt.block_on(async {
+        let keys = dir.join("keys");
+        let config = KeysetConfig {
+            stale_key_count: stale,
+            key_rotation_interval: CHILD_INTERVAL_S,
+            key_storage_path: Some(keys.to_str().unwrap().to_string()),
+        };
+        let mut rx = nts_key_provider::spawn(config).await;
+        // start-up store done; the provider thread now sleeps one full interval
+        if !matches!(tokio::time::timeout(Duration::from_secs(30), rx.changed()).await, Ok(Ok(()))) {
+            return 3;
+        }
+        let t0 = Instant::now();
+        if std::fs::copy(&keys, dir.join("old")).is_err() {
+            return 6;
+        }
+        let me = std::process::id().to_string();
+        let ok = std::process::Command::new("/usr/bin/prlimit")
+            .args(["--pid", &me, &format!("--fsize={fsize}:{fsize}"), "--core=0:0"])
+            .stdin(std::process::Stdio::null())
+            .stdout(std::process::Stdio::null())
+            .stderr(std::process::Stdio::null())
+            .status()
+            .map(|s| s.success())
+            .unwrap_or(false);
+        if !ok {
+            return 4;
+        }
+        // only empty files can be created from here on
+        if t0.elapsed() > Duration::from_millis(2500) {
+            let _ = std::fs::File::create(dir.join("late"));
+        }
+        let _ = std::fs::File::create(dir.join("limited"));
+        // the rotation store: either the kernel kills us in it, or it completes and is published
+        match tokio::time::timeout(Duration::from_secs(30), rx.changed()).await {
+            Ok(Ok(())) => 0,
+            _ => 5,
+        }
+    });
+    std::process::exit(code);
 }
 
 fn scratch_dir() -> PathBuf {
@@ -906,19 +1276,32 @@ fn check() {
          the daemon's own file, restart on a 3-key file with sessions of ages 0..=3 (with the stale-key-count it was written with, a larger and a smaller one; the \
          smaller one also followed by the daemon's own rotation), restart after the daemon's own 1 s rotation, EVERY \
          prefix of a stored 1-key file (thorough: and of a 2-key file), 19 named corrupt-file classes (thorough: for a 1-key and a 2-key \
-         file), missing directory, path is a directory. Every published key set is used through a real NTS-KE handshake and a real \
+         file), missing directory, path is a directory. Crash injection: for stale-key-count 0, 1, 2 and a full key file, the real provider in a child \
+         process is killed by the kernel (RLIMIT_FSIZE = N) inside its rotation store, for N in {0..=24, every key boundary +-2, every 8th byte, len, len+1000} \
+         (thorough: every N in 0..=len), and the file left behind is loaded (and for 5 offsets per s restarted on). Every published key set is used through a real NTS-KE handshake and a real \
          Server::handle round trip (twice). Distinct & non-trivial = a distinct file content handed to a daemon start.",
     );
     ctx.assume("a panic in any thread of the test process during a case is attributed to that case (one test thread, cases run sequentially)");
     ctx.assume("the repository's test certificates (ntpd/test-keys) are valid at the time of the run");
-    ctx.assume("crash points are modelled as prefixes because the daemon opens the key file with truncate(true) and writes it front to back; checked here only through the absence of a stale tail after overwriting longer files");
-    rt.block_on(run_all(&env));
+    ctx.assume("crash points inside the daemon's store are produced by the kernel: a child running the real provider limits its RLIMIT_FSIZE to N (prlimit) and is killed by SIGXFSZ when the store passes byte N; a child that did not die that way (or applied the limit late) is a machinery error and is not judged");
+    ctx.assume("RLIMIT_FSIZE crashes cover 'process dies after N bytes reached the file'; reordering / loss of already written data below the write call (power failure) is not modelled");
+    // crash injection: sessions are issued inside the runtime, the children run on plain threads
+    let mut crash = CrashData { bases: Vec::new(), outcomes: Vec::new() };
+    for s in 0..=2usize {
+        crash.bases.push(rt.block_on(healthy(&env, s, s + 1)));
+    }
+    let images: Vec<Vec<u8>> = crash.bases.iter().map(|b| b.0.clone()).collect();
+    let t_crash = Instant::now();
+    crash.outcomes = run_crash_batch(&dir, &images, !ctx.quick(), 48);
+    ctx.set("daemon_crash_batch_ms", t_crash.elapsed().as_millis() as u64);
+    rt.block_on(run_all(&env, &crash));
     rt.shutdown_background();
     if std::fs::remove_dir_all(&dir).is_err() {
         // a late writer may have re-created a file; once more
         std::thread::sleep(Duration::from_millis(200));
         let _ = std::fs::remove_dir_all(&dir);
     }
-    ctx.exhaustive(true);
+    // a crash case that could not be judged (machinery) leaves a hole in the enumeration
+    ctx.exhaustive(ctx.get("daemon_crash_machinery_errors") == 0);
     ctx.finish();
 }
